@@ -7,6 +7,7 @@ is the one of `C03/Model.lean`; invariants and their preservation are in `C04/Le
 import LimnoriaModel.C04.Lemmas
 import LimnoriaModel.C04.Glob
 import LimnoriaModel.C04.PluginLemmas
+import LimnoriaModel.C04.Overlap
 namespace C04
 open Py C03
 
@@ -212,6 +213,39 @@ theorem setUser_no_common_instance (st : St) (u : User) (live : Bool)
   rw [intersect_complete hs h1 h2] at this
   cases this
 
+/-- **Two accounts can never own overlapping masks.**  In every state reachable by any history
+of dictionary operations (register, hostmask add/remove, identify, unidentify, changename, set
+secure, users.conf load, delUser, ticks, lookups), no hostmask (without LF — IRC prefixes contain
+none) is matched by masks of two different accounts.  (`step_noCommon`, `C04/Overlap.lean`: an
+accepted `setUser` tested the stored record against everybody else with
+`hostmaskPatternsIntersect`, which is complete; a refused one is rolled back or adds no mask.) -/
+theorem no_overlapping_masks {st : St} (hr : Reachable st) : NoCommon st.db.users := by
+  obtain ⟨t, ops, e⟩ := hr
+  subst e
+  have key : ∀ (st : St), Inv st → NoCommon st.db.users → Inv (run st ops) ∧ NoCommon (run st ops).db.users := by
+    induction ops with
+    | nil => intro st h1 h2; exact ⟨h1, h2⟩
+    | cons o os ih =>
+      intro st h1 h2
+      unfold run
+      simp only [List.foldl_cons]
+      exact ih _ (step_inv h1 o) (step_noCommon h1 h2 o)
+  refine (key _ (init_inv t) ?_).2
+  intro u hu; cases hu
+
+/-- … and so a sender's hostmask can match two accounts only through a *login* (an `identify`
+with the other account's password from a host that the first account's mask matches): pattern
+matches alone never collide. -/
+theorem two_pattern_matches_same_account {st : St} (hr : Reachable st) (s : Str) (hs : '\n' ∉ s)
+    (u v : User) (hu : u ∈ st.db.users) (hv : v ∈ st.db.users)
+    (hmu : ∃ p ∈ u.hostmasks, glob p s = true) (hmv : ∃ q ∈ v.hostmasks, glob q s = true) :
+    u.id = v.id := by
+  obtain ⟨p, hp, hgp⟩ := hmu
+  obtain ⟨q, hq, hgq⟩ := hmv
+  cases Nat.decEq u.id v.id with
+  | isTrue h => exact h
+  | isFalse h => exact absurd ⟨hgp, hgq⟩ (no_overlapping_masks hr u hu v hv h p hp q hq s hs)
+
 /-! ## The design-time finding "masks with a common instance are accepted", after its repair -/
 
 def annMask : Str := ['a', 'n', 'n', '*', '!', '*', '@', '*']
@@ -315,6 +349,10 @@ theorem recognised_by_mask_or_password {pwOk : Str → Str → Bool} {pst : PSt}
       rw [h4, ← hes]; exact hlive
   | missing => rw [hl] at ha; cases ha
   | duplicate => rw [hl] at ha; cases ha
+
+/-- the same through the User plugin: accounts never own masks with a hostmask in common -/
+theorem plugin_no_overlapping_masks {pwOk : Str → Str → Bool} {pst : PSt} (hr : PReachable pwOk pst) :
+    NoCommon pst.st.db.users := (preachable_pinv hr).disjoint
 
 /-- a `secure` account only accepts a login from a hostmask one of its masks matches
 (`IrcUser.addAuth`, checked WITHOUT the existing logins) -/
